@@ -1,6 +1,7 @@
 """which contracts (engine P) and bounded checks (engine R) decide which property"""
 GL_ALL = ('contracts.grouped_list', None)
 
+FCM = ('contracts.qualitative', None)
 ENUM = ('contracts.base_carver', ['combinations_at_index', 'consecutive_combinations', 'consecutive_combinations@top', 'nan_combinations'])
 
 REGISTRY = {
@@ -16,7 +17,7 @@ REGISTRY = {
                          'BOUNDED (engine R): post-conditions of fit+transform on train and dev (label count, per-label frequency >= min_freq_mod, missing handling, same labels and '
                          'same rate ranking on dev) on the same frames as C01.',
              trusted=[]),
- 'C03': dict(level='other', P=[ENUM], R=['rtc.battery_C03', 'rtc.c01_carver'],
+ 'C03': dict(level='other', P=[ENUM, FCM], R=['rtc.battery_C03', 'rtc.c01_carver', 'rtc.c09_base'],
              explanation='PROVED: every grouping the carvers ever test is a contiguous partition of the ordered base modalities (enumerator soundness). BOUNDED: boundaries strictly '
                          'increasing with +inf last, ordinal groups are consecutive runs of the user ranking, categorical leaders in target-rate order, transform is a non-decreasing '
                          'right-closed step function on probes (boundaries, nextafter neighbours, midpoints, +-1e300), fitted carver groups contiguous.'),
@@ -32,7 +33,7 @@ REGISTRY = {
  'C07': dict(level='other', P=[], R=['rtc.battery_C07'],
              explanation='BOUNDED: fit_transform == fit;transform, row-wise purity (subset, permutation, three re-indexings), repeatability, fitted state unchanged by transform, index/columns '
                          'kept, non-feature columns untouched, caller data unmodified with copy=True.'),
- 'C08': dict(level='other', P=[GL_ALL], R=['rtc.battery_C08'],
+ 'C08': dict(level='other', P=[GL_ALL], R=['rtc.battery_C08', 'rtc.c09_base'],
              explanation='PROVED: every GroupedList operation preserves the ordered-partition invariant (so any values_orders entry built through them is well formed). BOUNDED: fit completes or '
                          'raises AssertionError; afterwards all per-feature attributes have exactly the kept features as keys, orders are well formed and cover every training value, dropped '
                          'features pass through transform, summary/history do not raise.'),
@@ -43,6 +44,10 @@ REGISTRY = {
              explanation='PROVED: the GroupedList operations update_discretizer is built from (group, append, contains, get_group, replace_group_leader) meet their contracts for all inputs. '
                          'BOUNDED: seeded sequences of valid edits on fitted objects; after every edit transform maps the discarded rows to the kept label and leaves all other rows grouped as '
                          'before (replace renames only), and labels / summary / JSON round trip agree with transform.'),
+ 'C09': dict(level='other', P=[FCM], R=['rtc.c09_base'],
+             explanation='PROVED: find_closest_modality returns an in-range order neighbour of the rare modality (so merging never skips a bucket). BOUNDED: find_quantiles at function level, '
+                         'EXHAUSTIVE over all count vectors up to the stated size plus seeded larger arrays (strictly increasing observed values, frequent values are boundaries, 2.5*len/q bucket bound); '
+                         'fitted Discretizer family: ordinal buckets >= min_freq, quantitative >= min_freq/2 unless single, categorical default group iff rarer than min_freq, NaN separate.'),
  'C13': dict(level='proof', P=[GL_ALL], R=['rtc.c13_grouped_list'],
              explanation='GroupedList: representation invariant WF established by the three constructors and preserved by every mutating method, exact effect of each '
                          'operation on the abstract view (ordered leader -> members), observers equal to their definition over the view: proved for all inputs by engine P '
@@ -50,3 +55,5 @@ REGISTRY = {
                          'against a plain reference model over all operation sequences up to the stated depth (bounded, not counted as proved).',
              trusted=['is_equal(a, b) == (a == b) on NaN-free atoms (assumed; pandas.isna is a library call)', 'numpy.sort returns a permutation (assumed)']),
 }
+
+NOT_APPLICABLE = {}
